@@ -29,15 +29,15 @@ def _reg(ctx, name):
 
 
 def _num(v):
-    return Rec(cls=XLT + 'Number', value=v, truthy=bool(v))
+    return Rec(cls=XLT + 'Number', value=v)
 
 
 def _text(v):
-    return Rec(cls=XLT + 'Text', value=v, truthy=bool(v))
+    return Rec(cls=XLT + 'Text', value=v)
 
 
 def _blank():
-    return Rec(cls=XLT + 'Blank', value=None, truthy=False)
+    return Rec(cls=XLT + 'Blank', value=None)
 
 
 class _Arr(PyModel):
@@ -80,9 +80,8 @@ def _models(ctx, log=None):
                 return bool(v.f.get('cls')) and ctx.res.is_subclass(v.f['cls'], XLT + cls)
             return isinstance(v, natives) and not (cls != 'Boolean' and isinstance(v, bool) and natives == (str,))
         return f
-    return {XLT + 'Number.is_type': number_is_type, XLT + 'Blank.is_blank': is_blank, XLERR + 'ExcelError.is_error': is_error,
-            XLT + 'Text.is_type': is_type_of('Text', (str,)), XLT + 'Boolean.is_type': is_type_of('Boolean', (bool,)),
-            XLT + 'Blank.is_type': is_type_of('Blank', (type(None),)), 'ext:pandas.concat': concat}
+    # the class predicates (is_type, is_blank, is_error) are NOT modelled: the methods of the value classes are interpreted as written
+    return {'ext:pandas.concat': concat}
 
 
 def _isinst(ctx):
@@ -230,10 +229,49 @@ def rule_5(ctx):
     c04.rule_1(ctx)
 
 
+def rule_6(ctx):
+    """The aggregates as the evaluator calls them - the registered object, i.e. the validate_args wrapper with its casts, then the
+    body - on witness argument lists (numbers, a zero, a blank, a text, an array): blanks and texts take no part, a zero does."""
+    from . import values as V
+
+    def nodate(*a, **k):
+        from xlsa.guards import ExcRaised
+        raise ExcRaised(Ref('builtin:ValueError'))      # no witness text is a date
+    models = {'ext:dateutil.parser.parse': nodate}
+    arr = V.array([[V.num(1), V.blank()], [V.text('x'), V.num(0)]])
+    table = [
+        ('AVERAGE', [V.num(4), V.blank(), V.num(6), V.text('spam')], ('Number', 5.0)),
+        ('AVERAGE', [V.num(4), V.num(0), V.num(8)], ('Number', 4.0)),
+        ('AVERAGE', [arr, V.num(5)], ('Number', 2.0)),
+        ('MIN', [V.num(4), V.blank(), V.num(6)], ('Number', 4)),
+        ('MIN', [V.num(4), V.num(0), V.num(6)], ('Number', 0)),
+        ('MAX', [V.num(-4), V.blank(), V.num(-6)], ('Number', -4)),
+        ('MAX', [arr, V.num(-2)], ('Number', 1)),
+        ('SUM', [V.num(4), V.blank(), V.num(6)], ('Number', 10.0)),
+        ('SUM', [arr, V.num(10)], ('Number', 11.0)),
+        ('COUNT', [V.num(0), V.text('x'), V.blank(), V.num(2.5)], 2),
+        ('COUNT', [arr], 2),
+        ('COUNTA', [V.num(0), V.text('x'), V.blank()], 2),
+        ('COUNTA', [arr, V.boolean(False)], 4),
+    ]
+    for name, args, want in table:
+        f = V.registered(ctx, name)
+        out = V.call(ctx, name, args, models=models)
+        got = V.norm(out.value) if out.end == 'return' else f'<{out.end} {out.value!r}>'
+        if isinstance(got, tuple) and got and got[0] == 'Number' and isinstance(want, int) and not isinstance(want, tuple):
+            got = got[1]
+        shown = ', '.join(str(V.norm(a)) for a in args)
+        ctx.expect(got == want, f.node, f'{name}({shown})',
+                   f'{name}({shown}) called the way the evaluator calls it gives {got!r}, expected {want!r}: blanks and texts are not part of '
+                   'the addressed numbers (a blank is not a 0), a stored 0 is')
+    ctx.floor(len(table), 'aggregate witnesses through the registered wrapper')
+
+
 RULES = [
     ('C14.1', 'only numbers are folded', rule_1),
     ('C14.2', 'empty folds are guarded on the filtered collection', rule_2),
     ('C14.3', 'SUMPRODUCT shape guard', rule_3),
     ('C14.4', 'COUNT/COUNTA predicates, flatten', rule_4),
     ('C14.5', 'range arrays are rebuilt from the cells on every evaluation (shared with C04.1)', rule_5),
+    ('C14.6', 'aggregates through the registered wrapper on witness argument lists', rule_6),
 ]
